@@ -28,7 +28,12 @@ Definition cs2_of (m : bundle) := (to_plain_state m true, to_plain_state m false
 
 Definition split_corr (b : base) (mb : list bundle) (i : nat) (o : option split_l) : bool :=
   match o with
-  | None => false
+  | None =>
+      (* the implementation panicked while building or joining the second half: agreed only on the
+         out-of-contract stream and only when the model's replay of that half is undefined too *)
+      negb (c_in_contract b) &&
+      match bundle_from (c_retain b) bundle_empty (skipn i (firstn (length mb) (groups_of b))) with
+      | None => true | Some _ => false end
   | Some (e, ecs, epr, p, pcs, b2n) =>
       match nth_error mb (i - 1), bundle_from (c_retain b) bundle_empty (skipn i (firstn (length mb) (groups_of b))) with
       | Some b1, Some b2 =>
@@ -38,6 +43,10 @@ Definition split_corr (b : base) (mb : list bundle) (i : nat) (o : option split_
           && eqb (to_plain_state_reverts (bs_reverts me)) (map dec_prevert epr)
           && eqb mp (dec_bundle p) && eqb (cs2_of mp) (dec_cs2 pcs)
           && eqb (to_plain_state b2 false) (dec_changeset b2n)
+      (* out-of-contract stream only: the second half starts from transitions whose previous status no
+         empty bundle can meet; the model's replay of such a half from an empty bundle is undefined
+         (the code takes its vacant-entry path without looking at the previous status) - not compared *)
+      | Some _, None => negb (c_in_contract b)
       | _, _ => false
       end
   end.
